@@ -34,13 +34,14 @@ C09 == INSTANCE Mon_C09 WITH MCfg <- MCfgV
 C17 == INSTANCE Mon_C17 WITH MCfg <- MCfgV
 C10 == INSTANCE Mon_C10 WITH MCfg <- MCfgV
 C19 == INSTANCE Mon_C19 WITH MCfg <- MCfgV
+C18 == INSTANCE Mon_C18 WITH MCfg <- MCfgV
 
 MonInit == [c06 |-> C06!Init, c07 |-> C07!Init, c11 |-> C11!Init, c12 |-> C12!Init, c13 |-> C13!Init,
-            c08 |-> C08!Init, c09 |-> C09!Init, c17 |-> C17!Init, c10 |-> C10!Init, c19 |-> C19!Init]
+            c08 |-> C08!Init, c09 |-> C09!Init, c17 |-> C17!Init, c10 |-> C10!Init, c19 |-> C19!Init, c18 |-> C18!Init]
 MonStep(Mo, st) == [c06 |-> C06!Step(Mo.c06, st), c07 |-> C07!Step(Mo.c07, st), c11 |-> C11!Step(Mo.c11, st),
                     c12 |-> C12!Step(Mo.c12, st), c13 |-> C13!Step(Mo.c13, st),
                     c08 |-> C08!Step(Mo.c08, st), c09 |-> C09!Step(Mo.c09, st), c17 |-> C17!Step(Mo.c17, st),
-                    c10 |-> C10!Step(Mo.c10, st), c19 |-> C19!Step(Mo.c19, st)]
+                    c10 |-> C10!Step(Mo.c10, st), c19 |-> C19!Step(Mo.c19, st), c18 |-> C18!Step(Mo.c18, st)]
 
 \* ---------------------------------------------------------------- message alphabet
 Hosts == Peers \cup {"x.r9"}
@@ -89,10 +90,16 @@ Usable(c) == S.conn[c].used /\ S.conn[c].sock = "open" /\ ~S.conn[c].connecting 
 Whole(c) == Usable(c) /\ ~S.frag[c]      \* no half-delivered message pending on c
 Acts ==
   (IF S.now < MaxTime THEN {[a |-> "tick"]} ELSE {}) \cup
-  (IF S.nconn < MaxConn THEN {[a |-> "connect"]} ELSE {}) \cup
+  (IF S.nconn < MaxConn /\ S.listen = "open" THEN {[a |-> "connect"]} ELSE {}) \cup
+  (IF "stop" \in Alpha /\ S.stop.phase = "none" THEN {[a |-> "stop", force |-> FALSE, wait |-> 2]} ELSE {}) \cup
+  (IF "stopf" \in Alpha /\ S.stop.phase = "none" THEN {[a |-> "stop", force |-> TRUE, wait |-> 2]} ELSE {}) \cup
   UNION {{[a |-> "feed", c |-> c, ms |-> <<m>>] : m \in Msgs(c)} : c \in {x \in ConnIds : Whole(x)}} \cup
   (IF Pairs THEN UNION {{[a |-> "feed", c |-> c, ms |-> <<m1, m2>>] : m1 \in {x \in Msgs(c) : x.cmd = "CE"}, m2 \in {x \in Msgs(c) : x.cmd \in {"APP", "DW"} /\ x.req}}
                         : c \in {x \in ConnIds : Whole(x)}} ELSE {}) \cup
+  \* a watchdog request and the answer to the node's DPR in one network read
+  (IF "dwrdpa" \in Alpha
+     THEN UNION {{[a |-> "feed", c |-> c, ms |-> <<m1, m2>>] : m1 \in {x \in Msgs(c) : x.cmd = "DW" /\ x.req}, m2 \in {x \in Msgs(c) : x.cmd = "DP" /\ ~x.req}}
+                 : c \in {x \in ConnIds : Whole(x) /\ S.conn[x].st = "DISCONNECTING"}} ELSE {}) \cup
   (IF Faults THEN UNION {{[a |-> "peer_close", c |-> c], [a |-> "peer_reset", c |-> c]} : c \in {x \in ConnIds : Usable(x)}} ELSE {}) \cup
   (IF "garbage" \in Alpha THEN {[a |-> "garbage", c |-> c] : c \in {x \in ConnIds : Whole(x)}} ELSE {}) \cup
   \* a watchdog request delivered in two network reads (first half, then the rest)
@@ -156,6 +163,7 @@ Inv09 == S.overflow \/ Sigs(M.c09.viol) \subseteq Known
 Inv17 == S.overflow \/ Sigs(M.c17.viol) \subseteq Known
 Inv10 == S.overflow \/ Sigs(M.c10.viol) \subseteq Known
 Inv19 == S.overflow \/ Sigs(M.c19.viol) \subseteq Known
+Inv18 == S.overflow \/ Sigs(M.c18.viol) \subseteq Known
 \* the atomic step always reaches quiescence within the bound of Quiesce
 Quiescent == ~AnyEnabled(S)
 NoOverflow == ~S.overflow
